@@ -1,0 +1,25 @@
+//go:build verif
+
+// Machine-checked contracts for package filelog (comment-only; read by /verif/cmd/govc).
+
+package filelog
+
+// Log readers (C04: exactly the completely written records, never truncated/padded/invented;
+// C20: no panic for any file content). `data` is whatever ioutil.ReadAll returned: arbitrary bytes.
+
+//@ func fileLogs.ReadAll
+//@   prop C04 C20
+//@   requires flogs != nil && flogs.files != nil && allnonnil(flogs.files)
+//@   modifies *
+//@   invariant loop 1: 0 <= pos && pos <= int64(len(data)) && len(data) > 0
+//@   invariant loop 1: forall i int :: 0 <= i && i < len(msgs) ==> within(msgs[i].Data, data)
+//@   assert at "msg := storage.LogMessage{EntryType: entryType, Data: databuf}": within(databuf, data)
+
+//@ func fileLogs.StreamAll
+//@   prop C04 C20
+//@   requires flogs != nil && flogs.files != nil && allnonnil(flogs.files)
+//@   modifies *
+//@   invariant loop 1: 0 <= pos && pos <= int64(len(data)) && len(data) > 0
+//@   assert at "ch <- storage.LogMessage{EntryType: entryType, Data: databuf}": within(databuf, data)
+
+// fileLogs.readEntireVersion carries the same parsing loop but is dead code (never called): not under contract.
